@@ -278,6 +278,24 @@ func crashOnce(self, dir string, tr *core.Tracer, sc *crashScen, raw json.RawMes
 			os.WriteFile(fmt.Sprintf("%s.fsops.%d.json", outPrefix, idx), b, 0o644)
 		}
 	}
+	if sc.Mode == "rebucket" {
+		// the renames and directory calls of the whole run, with paths relative to the store directory (Translate.tla)
+		var list [][3]string
+		rel := func(p string) string {
+			if r, err := filepath.Rel(root, p); err == nil {
+				return r
+			}
+			return p
+		}
+		for _, op := range ops {
+			if op.Kind == "rename" || op.Kind == "mkdir" || op.Kind == "rmdir" {
+				list = append(list, [3]string{op.Kind, rel(op.Path), rel(op.Path2)})
+			}
+		}
+		if b, err := json.Marshal(map[string]any{"t": idx, "ops": list}); err == nil {
+			os.WriteFile(fmt.Sprintf("%s.fsops.%d.json", outPrefix, idx), b, 0o644)
+		}
+	}
 	// self-check of the reconstruction: the final image must equal the real directory
 	final := img0.Clone()
 	for _, op := range ops {
